@@ -117,21 +117,33 @@ def h_none(ctx, kind):
 
 
 # ---------------------------------------------------------------- String / NagString
-def h_string_value(ctx, cls, length, n):
-    """value of n characters: write, escape as on the wire, read back"""
+def h_string_value(ctx, cls, length, n, history=0):
+    """value of n characters: write, escape as on the wire, read back (after `history` earlier values through the same converter:
+    distinct, every third one over-long)"""
     conv = getattr(Types, cls)(length)
+    for i in range(history):
+        hv = str(i).zfill(length or 3)                                   # distinct, within the limit
+        if cls == "NagString" and i % 3 == 0:
+            hv = hv + "x"                                                # over-long: warned about, kept
+        with warnings.catch_warnings(record=True):
+            warnings.simplefilter("always")
+            conv.convert(hv)
+            conv.unconvert(hv)
     v = ctx.str("v", n, PRINTABLE)
     if length is not None and n > length:
         if cls == "String":
             ctx.check("over-long String is rejected when written", raises(conv.unconvert, v))
             ctx.check("over-long String is rejected when read", raises(conv.convert, xml_escape(v)))
         else:
-            with warnings.catch_warnings(record=True) as w:
+            with warnings.catch_warnings(record=True) as w1:
                 warnings.simplefilter("always")
                 t = conv.unconvert(v)
+            with warnings.catch_warnings(record=True) as w2:
+                warnings.simplefilter("always")
                 back = conv.convert(xml_escape(v))
             ctx.check("over-long NagString is kept whole when written", t == v)
             ctx.check("over-long NagString is kept whole when read", back == v)
+            ctx.check("over-long NagString warns when written and when read", len(w1) >= 1 and len(w2) >= 1)
         return
     t = conv.unconvert(v)
     ctx.check("String is written unchanged", t == v)
@@ -434,6 +446,9 @@ def instances(tier, seed):
             hi = (L + 1) if L is not None else 3
             for n in range(1, hi + 1):
                 mk(f"string_value[{cls},{L},{n}]", "string_value", dict(cls=cls, length=L, n=n))
+    # the same after a long history through one converter object (300 earlier values, 100 of them over-long for the nagging type)
+    for cls, L, n in (("String", 3, 4), ("String", 3, 3), ("NagString", 3, 4)):
+        mk(f"string_value[{cls},{L},{n},history=300]", "string_value", dict(cls=cls, length=L, n=n, history=300))
     # entity decoding needs room for an entity: texts up to 6 (quick) / 7 (thorough) characters
     for cls, L in (("String", None), ("String", 3), ("NagString", 2)) if not full else (("String", None), ("String", 1), ("String", 3), ("NagString", 2)):
         for n in range(1, (6 if not full else 7) + 1):
